@@ -6,7 +6,10 @@ hailtop/aiotools/copy.py) run over the real RouterAsyncFS + LocalAsyncFS in a pe
 so file operations are deterministic and their interleavings are explored).  Part size and Copier.BUFFER_SIZE are forced to a few bytes so that files of
 size 0..9 cross part and buffer boundaries.
 
-Inputs: source trees from a small grammar x destination states x treat_dest_as x 1-2 transfers.
+Inputs: source trees from a small grammar x destination states x treat_dest_as x 1-2 transfers; plus a
+transfer-buffer x part-size x file-size grid (buffers 2,3,4,8; parts below / equal to / a multiple of /
+non-multiples above the buffer; file sizes 0..3*part+2) for local->local, local->Azure fake, Azure fake->local
+(the real AzureAsyncFS over an in-memory block-blob fake).  Class attributes are restored after every execution.
 Schedules: asyncio's own order plus every sequence of at most `bound` deviations from it; a deviation is
 either "run another runnable callback first" or "starve one task until nothing else can run".
 Oracle: an independent reference model of the destination rules (validated at start-up against the
@@ -858,7 +861,10 @@ def check(tier, seed, procs):
         'deviation_bounds': {str(b): sum(1 for r in rows if r['bound'] == b) for b in sorted({r['bound'] for r in rows})},
         'recorded_repo_specs_reproduced_by_model': n_specs,
         'states_note': 'states = distinct (exception class, destination tree) observations summed over configurations',
-        'bounds': f'file sizes {SIZES}; part size 4 / buffer 2 (thorough also 3/3 and 5/1); sources: file, dir with 0-2 files, nested dir, nested empty '
+        'buffer_part_grid_configurations': sum(1 for r in rows if r['label'].startswith('grid')),
+        'backend_pairs': sorted({r['cfg'].get('pair', 'local-local') for r in rows}),
+        'bounds': f'grid: Copier.BUFFER_SIZE in {BUFFERS} x part sizes (buf-1, buf, 2buf, buf+1, 2buf+1, 2buf+2) x file sizes 0..3*part+2 x pairs {PAIRS}; '
+                  f'rule grammar: file sizes {SIZES}; part size 4 / buffer 2 (thorough also 3/3, 5/1, 5/2); sources: file, dir with 0-2 files, nested dir, nested empty '
                   f'dir, missing, file-and-directory; 10 destination states; 3 treat_dest_as modes; 1-2 transfers and 2-source lists; '
                   f'schedules: asyncio order plus every sequence of <= bound deviations, a deviation being "run another runnable callback first" or '
                   f'"starve one task until nothing else can run" (bound per configuration in deviation_bounds)',
@@ -871,7 +877,11 @@ def check(tier, seed, procs):
         'violations': violations,
         'assumptions': [
             'every thread-pool call (open/read/write/fsync/stat/scandir) is executed as its own event-loop step when the explorer picks it; scheduling points are event-loop callbacks',
-            'part size and Copier.BUFFER_SIZE are overridden from outside (LocalAsyncFS.copy_part_size, Copier.BUFFER_SIZE class attributes)',
+            'part size and Copier.BUFFER_SIZE are overridden from outside per execution (LocalAsyncFS/AzureAsyncFS.copy_part_size, Copier.BUFFER_SIZE class '
+            'attributes) and restored afterwards',
+            'cloud side of the buffer/part grid: the real AzureAsyncFS (built with object.__new__) over an in-memory fake of the Blob SDK: download_blob(offset, '
+            'length) with 416 past the end, get_blob_properties/exists/list_blobs/walk_blobs, block blobs via stage_block + commit_block_list, delete_blob; only '
+            'error-free destination layouts are used with it (object stores have no directory errors)',
             'the reference model encodes the destination rules (into-directory / exact target / inferred from existing destination or trailing slash) and local '
             'file-system errors (a path component that is a file -> NotADirectoryError, writing a file onto a directory -> IsADirectoryError); it is checked '
             'against the 324 behaviours recorded in test/hailtop/inter_cloud/copy_test_specs.py before every run',
